@@ -3,6 +3,8 @@ pub mod c09;
 pub mod c10;
 pub mod c11;
 pub mod c12;
+pub mod c16;
+pub mod c17;
 pub mod cmat;
 
 use crate::runner::Check;
@@ -17,6 +19,8 @@ pub fn all() -> Vec<Box<dyn Check>> {
         Box::new(cmat::C13),
         Box::new(cmat::C14),
         Box::new(cmat::C15),
+        Box::new(c16::C16),
+        Box::new(c17::C17),
         Box::new(cmat::C19),
     ]
 }
